@@ -1,7 +1,7 @@
 #![no_main]
 //! C15, coverage-guided: the bytes ARE the grammar text (seed corpus: every .ebnf of the repository + printed model
 //! grammars + restriction violators); from_str + generate_code in-process under catch_unwind: outcome must be code or Err.
-//! Regions of listed findings are excluded by construction (bracket nesting > 12 levels; counted by the fuzzer as no-ops).
+//! The region of the listed deep-nesting finding is excluded by construction (bracket nesting > 200 levels).
 use libfuzzer_sys::fuzz_target;
 include!("common.rs");
 
@@ -26,7 +26,7 @@ fuzz_target!(|data: &[u8]| {
         Ok(t) => t,
         Err(_) => return,
     };
-    if max_nesting(text) > 12 {
+    if max_nesting(text) > 200 {
         return;
     }
     let derives = vec!["Debug".to_string(), "Clone".to_string()];
